@@ -6,11 +6,14 @@ package main
 //
 // Family c11 (sequential): operation sequences from the model's alphabet
 //
-//	pool <id> <MaxConns> <lifetime> <idletime> ((acq t) (do 0 cut t) (rel 0) (rel 0) ... (close))
+//	pool <id> <MaxConns> <MinConns> <lifetime> <idletime> (<New's dials: t f ...>) ((acq t) (do 0 cut t) (rel 0) ... (close))
 //
 // are run one operation at a time; after each the harness waits until the goroutines puddle started
 // have finished and prints what the model prints: outcome, resource (= connection id) per handle,
-// Stat(), closed connections.  Untimed sequences (exhaustive to a depth, then random long ones) use
+// Stat(), closed connections.  New (createIdleResources) runs with scripted dial outcomes; the dials of the
+// goroutines checkMinConns starts wait at a gate (c11srv.go): a tick is reported as (tick k) with the k dials
+// that arrived, and each (spawn t|f) lets the oldest of them return, so that other operations - Close
+// included - run while creations are in flight.  Untimed sequences (exhaustive to a depth, then random long ones) use
 // hour-long lifetimes and no health check; timed sequences run on a slotted real-time schedule
 // (operations at (4j+2)q, health check ticks at multiples of the period, thresholds at (4L+1)q) with
 // lifetimes, idle times and the background health check in play.  Alongside, a direct oracle judges
@@ -125,15 +128,17 @@ func c11PuddleClosed(p *chpool.Pool) (closed bool, ok bool) {
 // ---------------------------------------------------------------- scripts
 
 type c11Op struct {
-	kind string // acq rel do ping pdo pping sleep close
+	kind string // acq rel do ping pdo pping sleep close spawn
 	h    int
-	dial bool   // acq / pdo / pping: the dial (if one happens) succeeds
+	dial bool   // acq / pdo / pping: the dial (if one happens) succeeds; spawn: the dial at the gate succeeds
 	req  string // ok exc cut cancel
 }
 
 type c11Script struct {
 	id       int
 	max      int
+	min      int    // MinConns
+	newDials []bool // outcomes of New's dials (missing = success)
 	timed    bool
 	lifeU    int // lifetime in units (timed)
 	idleU    int
@@ -166,6 +171,7 @@ type c11Run struct {
 	unsettled bool
 	window    bool // a cut left the client open (C04's business): not compared
 	tok       int
+	ghosts    int // creations that completed after Close: puddle keeps counting them as idle
 }
 
 func (r *c11Run) fail(format string, a ...any) {
@@ -203,13 +209,14 @@ func (r *c11Run) settle() {
 			}
 		}
 		open := r.env.openCount()
-		if int(st.AcquiredResources()) == r.liveCount() && open-liveOpen == int(st.IdleResources()) && st.ConstructingResources() == 0 {
+		if int(st.AcquiredResources()) == r.liveCount() && open-liveOpen == int(st.IdleResources())-r.ghosts &&
+			int(st.ConstructingResources()) == r.env.pendingCount() {
 			return
 		}
 		if time.Now().After(deadline) {
 			r.unsettled = true
-			r.fail("pool-did-not-settle: Stat acquired=%d idle=%d total=%d, handles held=%d (with open connection %d), open connections=%d",
-				st.AcquiredResources(), st.IdleResources(), st.TotalResources(), r.liveCount(), liveOpen, open)
+			r.fail("pool-did-not-settle: Stat acquired=%d idle=%d constructing=%d total=%d, handles held=%d (with open connection %d), open connections=%d, dials at the gate=%d",
+				st.AcquiredResources(), st.IdleResources(), st.ConstructingResources(), st.TotalResources(), r.liveCount(), liveOpen, open, r.env.pendingCount())
 			return
 		}
 		if i < 50 {
@@ -264,7 +271,7 @@ func (r *c11Run) state(obs string) string {
 	for _, c := range r.closedSet() {
 		cb = append(cb, strconv.Itoa(c))
 	}
-	return fmt.Sprintf("(%s (%s) (%d %d %d) (%s))", obs, strings.Join(hb, " "), st.TotalResources(), st.AcquiredResources(), st.IdleResources(), strings.Join(cb, " "))
+	return fmt.Sprintf("(%s (%s) (%d %d %d %d) (%s))", obs, strings.Join(hb, " "), st.TotalResources(), st.AcquiredResources(), st.IdleResources(), st.ConstructingResources(), strings.Join(cb, " "))
 }
 
 // judge evaluates the state-based part of the property after an operation has settled.
@@ -304,10 +311,10 @@ func (r *c11Run) judge(what string) {
 func (r *c11Run) ctxFor(cancelTok string) (context.Context, context.CancelFunc) {
 	st := r.p.Stat()
 	d := 5 * time.Second
-	if int(st.AcquiredResources()) >= r.s.max {
-		d = time.Millisecond // every token is taken: the acquire can only wait
+	if int(st.AcquiredResources()+st.ConstructingResources()) >= r.s.max {
+		d = time.Millisecond // every token is taken (holders, creations in flight): the acquire can only wait
 	}
-	ctx, cancel := context.WithTimeout(context.Background(), d)
+	ctx, cancel := context.WithTimeout(c11Fg(context.Background()), d)
 	if cancelTok != "" {
 		r.env.cancels.Store(cancelTok, cancel)
 	}
@@ -558,6 +565,31 @@ func (r *c11Run) step(op c11Op) {
 		r.settle()
 		r.judge("Close")
 		r.groups = append(r.groups, r.state("-"))
+	case "spawn":
+		// the oldest dial waiting at the gate returns (nothing to do when none waits)
+		closedNow, _ := c11PuddleClosed(r.p)
+		before := r.env.dialed()
+		w, ok := r.env.letGo(op.dial)
+		if !ok {
+			return
+		}
+		r.items = append(r.items, fmt.Sprintf("(spawn %s)", bsym(op.dial)))
+		if op.dial {
+			conns := r.env.snapshot()
+			if len(conns) != before+1 {
+				r.fail("harness: a released background dial produced %d connections", len(conns)-before)
+			} else {
+				c := conns[before]
+				r.released[c.id] = w.arrived // idle since puddle created the resource
+				if closedNow {
+					r.ghosts++
+					r.mustDie[c.id] = "dialed by CreateResource for a pool that was closed meanwhile"
+				}
+			}
+		}
+		r.settle()
+		r.judge("completion of a background creation")
+		r.groups = append(r.groups, r.state("-"))
 	case "sleep":
 		// to the next slot; a health check tick lies at the boundary when the new slot index is a multiple of the period
 		idleBefore := map[int]bool{}
@@ -579,16 +611,25 @@ func (r *c11Run) step(op c11Op) {
 		target := boundary.Add(2 * r.q)
 		r.items = append(r.items, "(adv 2)")
 		tick := r.slot%r.s.periodU == 0
+		tickItem := len(r.items)
 		if tick {
-			r.items = append(r.items, "(tick)")
+			r.items = append(r.items, "(tick ?)")
 		}
 		r.items = append(r.items, "(adv 2)")
+		gateBefore := r.env.pendingCount()
+		bgBefore := r.env.bgDials.Load()
 		time.Sleep(time.Until(target))
 		if time.Since(target) > r.q/2 {
 			r.late = true
 		}
 		if tick {
 			r.settle()
+			// the creations checkMinConns started: their dials are waiting at the gate
+			k := r.env.pendingCount() - gateBefore
+			if bg := int(r.env.bgDials.Load() - bgBefore); bg != k {
+				r.fail("harness lost a background dial: %d dials seen, %d at the gate", bg, k)
+			}
+			r.items[tickItem] = fmt.Sprintf("(tick %d)", k)
 			closedNow, _ := c11PuddleClosed(r.p)
 			if !r.closing && !closedNow {
 				life := time.Duration(4*r.s.lifeU+1) * r.q
@@ -614,11 +655,19 @@ func (r *c11Run) step(op c11Op) {
 }
 
 func c11RunScript(s c11Script, unitMs int) (caseLine, obs, oracle string, late bool) {
-	env := &c11Env{maxOpen: s.max}
+	env := &c11Env{maxOpen: s.max, gated: true}
+	for i := 0; i < s.min; i++ {
+		ok := true
+		if i < len(s.newDials) {
+			ok = s.newDials[i]
+		}
+		env.plan = append(env.plan, ok)
+	}
 	r := &c11Run{s: s, env: env, mustDie: map[int]string{}, released: map[int]time.Time{}, closeCh: make(chan struct{})}
 	opt := chpool.Options{
 		ClientOptions:     ch.Options{Dialer: env, Address: "c11"},
 		MaxConns:          int32(s.max),
+		MinConns:          int32(s.min),
 		MaxConnLifetime:   time.Hour,
 		MaxConnIdleTime:   time.Hour,
 		HealthCheckPeriod: time.Hour,
@@ -632,6 +681,7 @@ func c11RunScript(s c11Script, unitMs int) (caseLine, obs, oracle string, late b
 		lifeM, idleM = 4*s.lifeU+1, 4*s.idleU+1
 	}
 	crashed := ""
+	newFailed := false
 	func() {
 		defer func() {
 			if e := recover(); e != nil {
@@ -639,12 +689,38 @@ func c11RunScript(s c11Script, unitMs int) (caseLine, obs, oracle string, late b
 			}
 		}()
 		r.t0 = time.Now()
-		p, err := chpool.New(context.Background(), opt)
+		p, err := chpool.New(c11Fg(context.Background()), opt)
+		env.mu.Lock()
+		env.plan = nil // what New did not consume is not for later dials
+		env.mu.Unlock()
 		if err != nil {
-			crashed = "chpool.New: " + err.Error()
+			// New closed the pool it had begun to fill: everything it dialed must get closed
+			newFailed = true
+			deadline := time.Now().Add(2 * time.Second)
+			for env.openCount() > 0 && time.Now().Before(deadline) {
+				time.Sleep(50 * time.Microsecond)
+			}
+			var cb []string
+			for _, c := range env.snapshot() {
+				if c.closed.Load() {
+					cb = append(cb, strconv.Itoa(c.id))
+				} else {
+					r.fail("connection-leak-after-failed-New: connection #%d is still open after New returned %v", c.id, err)
+				}
+			}
+			r.groups = append(r.groups, fmt.Sprintf("(err () (0 0 0 0) (%s))", strings.Join(cb, " ")))
 			return
 		}
 		r.p = p
+		for _, c := range env.snapshot() {
+			r.released[c.id] = c.dialedAt // idle since New created it
+		}
+		r.settle()
+		r.judge("New")
+		if st := p.Stat(); s.min <= s.max && int(st.IdleResources()) != s.min {
+			r.fail("New-did-not-create-MinConns-idle-connections: Stat idle=%d total=%d, MinConns=%d", st.IdleResources(), st.TotalResources(), s.min)
+		}
+		r.groups = append(r.groups, r.state("ok"))
 		if s.timed {
 			r.items = append(r.items, "(adv 2)")
 			time.Sleep(time.Until(r.t0.Add(2 * r.q)))
@@ -663,6 +739,10 @@ func c11RunScript(s c11Script, unitMs int) (caseLine, obs, oracle string, late b
 			}
 		}
 		r.step(c11Op{kind: "close"})
+		// creations still in flight complete now, into the closed pool (Close waits for them)
+		for i := 0; env.pendingCount() > 0 && i < 64; i++ {
+			r.step(c11Op{kind: "spawn", dial: (s.id+i)%3 != 0})
+		}
 		select {
 		case <-r.closeCh:
 		case <-time.After(2 * time.Second):
@@ -674,7 +754,14 @@ func c11RunScript(s c11Script, unitMs int) (caseLine, obs, oracle string, late b
 			}
 		}
 	}()
-	caseLine = fmt.Sprintf("pool %d %d %d %d (%s)", s.id, s.max, lifeM, idleM, strings.Join(r.items, " "))
+	env.mu.Lock()
+	var nd []string
+	for _, ok := range env.planUsed {
+		nd = append(nd, bsym(ok))
+	}
+	env.mu.Unlock()
+	_ = newFailed
+	caseLine = fmt.Sprintf("pool %d %d %d %d %d (%s) (%s)", s.id, s.max, s.min, lifeM, idleM, strings.Join(nd, " "), strings.Join(r.items, " "))
 	obs = "ok " + strings.Join(r.groups, " ")
 	if len(r.groups) == 0 {
 		obs = "ok"
@@ -696,19 +783,24 @@ func c11RunScript(s c11Script, unitMs int) (caseLine, obs, oracle string, late b
 	if r.p != nil && !r.closing {
 		go r.p.Close()
 	}
+	for { // never leave a goroutine of the pool waiting at the gate
+		if _, ok := env.letGo(false); !ok {
+			break
+		}
+	}
 	return caseLine, obs, oracle, r.late
 }
 
 // ---------------------------------------------------------------- generators
 
-func c11Exhaustive(depth, max int, out *[]c11Script, budget int) {
+func c11Exhaustive(depth, max, min int, out *[]c11Script, budget int) {
 	var rec func(prefix []c11Op, handles int)
 	rec = func(prefix []c11Op, handles int) {
 		if len(*out) >= budget {
 			return
 		}
 		if len(prefix) > 0 {
-			*out = append(*out, c11Script{max: max, ops: append([]c11Op(nil), prefix...), category: "exhaustive"})
+			*out = append(*out, c11Script{max: max, min: min, ops: append([]c11Op(nil), prefix...), category: "exhaustive"})
 		}
 		if len(prefix) == depth {
 			return
@@ -727,11 +819,27 @@ func c11Exhaustive(depth, max int, out *[]c11Script, budget int) {
 
 func c11Count(depth int) int {
 	var out []c11Script
-	c11Exhaustive(depth, 1, &out, 1<<30)
+	c11Exhaustive(depth, 1, 0, &out, 1<<30)
 	return len(out)
 }
 
 var c11Reqs = []string{"ok", "ok", "exc", "cut", "cut", "cancel"}
+
+// c11Min draws MinConns in 0..max (0 a third of the time) and, now and then, a failing dial for New.
+func c11Min(r *rand.Rand, s *c11Script) {
+	if r.Intn(3) != 0 {
+		s.min = 1 + r.Intn(s.max)
+	}
+	if s.min > 0 && r.Intn(15) == 0 {
+		for i := 0; i < s.min; i++ {
+			s.newDials = append(s.newDials, true)
+		}
+		s.newDials[r.Intn(s.min)] = false
+	}
+	if r.Intn(60) == 0 {
+		s.min = s.max + 1 // New must fail: ErrNotAvailable from puddle
+	}
+}
 
 func c11Random(r *rand.Rand, timed bool) c11Script {
 	s := c11Script{max: 1 + r.Intn(3), timed: timed, category: "random"}
@@ -744,9 +852,17 @@ func c11Random(r *rand.Rand, timed bool) c11Script {
 		s.periodU = 2 + r.Intn(2)
 		n = 5 + r.Intn(10)
 	}
+	c11Min(r, &s)
 	handles := 0
 	sleeps := 0
-	held := 0 // rough count of handles the script holds
+	held := 0            // rough count of handles the script holds
+	spawnish := func() { // creations a tick may have started: let some of them complete, not always at once
+		for j := 0; j < 3; j++ {
+			if r.Intn(10) < 6 {
+				s.ops = append(s.ops, c11Op{kind: "spawn", dial: r.Intn(8) != 0})
+			}
+		}
+	}
 	for i := 0; i < n; i++ {
 		h := 0
 		if handles > 0 {
@@ -799,10 +915,86 @@ func c11Random(r *rand.Rand, timed bool) c11Script {
 					s.ops = append(s.ops, c11Op{kind: "sleep"})
 					sleeps++
 				}
+				if s.min > 0 {
+					spawnish()
+				}
+			} else if timed && s.min > 0 && r.Intn(2) == 0 {
+				s.ops = append(s.ops, c11Op{kind: "spawn", dial: r.Intn(8) != 0})
 			} else {
 				s.ops = append(s.ops, c11Op{kind: "acq", dial: true})
 				handles++
 			}
+		}
+	}
+	return s
+}
+
+// c11Floor: timed histories in which the pool sits AT the MinConns floor when a tick finds expired connections:
+// New's MinConns connections (some used and returned, never more than MinConns in the pool) outlive their
+// lifetime or idle time; the tick must destroy them all the same, checkMinConns replaces them, and the
+// replacements meet holders, further ticks and Close while some of their dials are still in flight.
+func c11Floor(r *rand.Rand) c11Script {
+	s := c11Script{timed: true, category: "floor"}
+	s.max = 1 + r.Intn(3)
+	s.min = 1 + r.Intn(s.max)
+	s.periodU = 2 + r.Intn(2)
+	if r.Intn(2) == 0 { // the lifetime runs out
+		s.lifeU, s.idleU = 1, 1+r.Intn(2)
+	} else { // only the idle time runs out
+		s.lifeU, s.idleU = 3, 1
+	}
+	handles := 0
+	use := func() { // a holder takes one of the floor connections and gives it back: the pool stays at MinConns
+		s.ops = append(s.ops, c11Op{kind: "acq", dial: true})
+		if r.Intn(2) == 0 {
+			s.ops = append(s.ops, c11Op{kind: "do", h: handles, req: "ok"})
+		}
+		s.ops = append(s.ops, c11Op{kind: "rel", h: handles})
+		handles++
+	}
+	if r.Intn(2) == 0 {
+		use()
+	}
+	for i := 0; i < s.periodU; i++ { // to the first tick: everything New dialed is past its idle time (or lifetime)
+		s.ops = append(s.ops, c11Op{kind: "sleep"})
+	}
+	held := -1
+	for round := 0; round < 3; round++ {
+		for j := 0; j < s.min; j++ {
+			switch r.Intn(6) {
+			case 0: // leave this dial at the gate for now
+			case 1:
+				s.ops = append(s.ops, c11Op{kind: "spawn", dial: false})
+			default:
+				s.ops = append(s.ops, c11Op{kind: "spawn", dial: true})
+			}
+		}
+		switch r.Intn(5) {
+		case 0:
+			use()
+		case 1:
+			s.ops = append(s.ops, c11Op{kind: "acq", dial: true})
+			held = handles
+			handles++
+		case 2:
+			s.ops = append(s.ops, c11Op{kind: "pdo", dial: true, req: c11Reqs[r.Intn(len(c11Reqs))]})
+			handles++
+		case 3:
+			if round == 2 {
+				s.ops = append(s.ops, c11Op{kind: "close"})
+			}
+		}
+		for i := 0; i < s.periodU; i++ {
+			s.ops = append(s.ops, c11Op{kind: "sleep"})
+		}
+		if held >= 0 && r.Intn(2) == 0 {
+			s.ops = append(s.ops, c11Op{kind: "rel", h: held})
+			held = -1
+		}
+	}
+	for j := 0; j < s.min; j++ {
+		if r.Intn(3) != 0 {
+			s.ops = append(s.ops, c11Op{kind: "spawn", dial: r.Intn(6) != 0})
 		}
 	}
 	return s
@@ -813,6 +1005,8 @@ func c11Corpus() []c11Script {
 	a := c11Op{kind: "acq", dial: true}
 	rel := func(h int) c11Op { return c11Op{kind: "rel", h: h} }
 	do := func(h int, q string) c11Op { return c11Op{kind: "do", h: h, req: q} }
+	sl := c11Op{kind: "sleep"}
+	sp := func(ok bool) c11Op { return c11Op{kind: "spawn", dial: ok} }
 	return []c11Script{
 		{max: 2, ops: []c11Op{a, rel(0), a, rel(0), a, do(1, "ok"), do(2, "ok")}, category: "corpus"},
 		{max: 1, ops: []c11Op{a, do(0, "cut"), rel(0), rel(0), a, a}, category: "corpus"},
@@ -823,6 +1017,18 @@ func c11Corpus() []c11Script {
 			ops: []c11Op{a, a, rel(0), {kind: "sleep"}, {kind: "sleep"}, rel(1), a, {kind: "sleep"}, {kind: "sleep"}, a}},
 		{max: 2, timed: true, lifeU: 3, idleU: 1, periodU: 2, category: "corpus",
 			ops: []c11Op{a, a, rel(0), rel(1), {kind: "sleep"}, a, {kind: "sleep"}, {kind: "sleep"}, {kind: "sleep"}, a, rel(0)}},
+		// MinConns: New fills the pool; holders reuse what New dialed
+		{max: 2, min: 2, ops: []c11Op{a, a, a, rel(0), do(1, "cut"), rel(1), a, a}, category: "corpus"},
+		{max: 3, min: 2, newDials: []bool{true, false}, category: "corpus"},
+		{max: 2, min: 3, category: "corpus"},
+		// at the floor: both of New's connections are past their idle time at the first tick; one replacement is
+		// used, the other dial fails; the next tick tops the pool up again; Close while a dial is in flight
+		{max: 2, min: 2, timed: true, lifeU: 3, idleU: 1, periodU: 2, category: "corpus",
+			ops: []c11Op{sl, sl, sp(true), sp(false), a, do(0, "ok"), sl, sl, sp(true), rel(0), sl, sl, {kind: "close"}, sp(true)}},
+		{max: 1, min: 1, timed: true, lifeU: 1, idleU: 1, periodU: 2, category: "corpus",
+			ops: []c11Op{a, rel(0), sl, sl, a, sp(true), a, rel(1), sl, sl, sl, sl, {kind: "close"}, sp(true), sp(true)}},
+		{max: 3, min: 1, timed: true, lifeU: 1, idleU: 2, periodU: 2, category: "corpus",
+			ops: []c11Op{sl, sl, a, a, sp(true), rel(0), sl, sl, sp(true), sl, sl, rel(1), sp(false)}},
 	}
 }
 
@@ -845,7 +1051,13 @@ func runC11(h *H) {
 		depth++
 	}
 	for max := 1; max <= 2; max++ {
-		c11Exhaustive(depth, max, &scripts, 1<<30)
+		c11Exhaustive(depth, max, 0, &scripts, 1<<30)
+	}
+	// ... and, one level less deep, from a pool New has filled: (MaxConns, MinConns) = (1,1), (2,1), (2,2)
+	if depth > 1 {
+		c11Exhaustive(depth-1, 1, 1, &scripts, 1<<30)
+		c11Exhaustive(depth-1, 2, 1, &scripts, 1<<30)
+		c11Exhaustive(depth-1, 2, 2, &scripts, 1<<30)
 	}
 	h.Stats["c11.exhaustive.len"+strconv.Itoa(depth)] = 1
 	nTimed := h.N / 16
@@ -861,7 +1073,12 @@ func runC11(h *H) {
 		scripts = append(scripts, c11Random(rand.New(rand.NewSource(seeds[i])), false))
 	}
 	for i := 0; i < nTimed; i++ {
-		scripts = append(scripts, c11Random(rand.New(rand.NewSource(seeds[nRandom+i])), true))
+		rr := rand.New(rand.NewSource(seeds[nRandom+i]))
+		if i%5 < 2 { // two fifths of the timed histories sit at the MinConns floor when connections expire
+			scripts = append(scripts, c11Floor(rr))
+		} else {
+			scripts = append(scripts, c11Random(rr, true))
+		}
 	}
 	for i := range scripts {
 		scripts[i].id = i
@@ -941,6 +1158,18 @@ func runC11(h *H) {
 		h.Emit(c, res.o, res.f)
 		h.Stat("c11." + scripts[i].category)
 		h.Stat("c11.maxconns" + strconv.Itoa(scripts[i].max))
+		if scripts[i].min > 0 {
+			h.Stat("c11.minconns>0")
+			if scripts[i].timed {
+				h.Stat("c11.timed.minconns>0")
+			}
+		}
+		if strings.Contains(c, "(spawn ") {
+			h.Stat("c11.background-creation-completed")
+		}
+		if strings.Contains(c, "(close) (spawn t)") {
+			h.Stat("c11.creation-completed-after-close")
+		}
 		if res.o == "-" {
 			h.Stat("c11.not-compared")
 		}
@@ -955,15 +1184,20 @@ func c11RaceCase(seed int64, id int) (desc, oracle string) {
 	g := 2 + r.Intn(6)
 	nops := 20 + r.Intn(60)
 	withClose := r.Intn(2) == 0
+	minc := 0
+	if r.Intn(3) != 0 {
+		minc = 1 + r.Intn(max) // checkMinConns keeps dialing behind the holders' backs, also while Close runs
+	}
 	env := &c11Env{maxOpen: max, delay: time.Duration(50+r.Intn(300)) * time.Microsecond}
 	opt := chpool.Options{
 		ClientOptions:     ch.Options{Dialer: env, Address: "c11"},
 		MaxConns:          int32(max),
+		MinConns:          int32(minc),
 		MaxConnLifetime:   time.Duration(2+r.Intn(6)) * time.Millisecond,
 		MaxConnIdleTime:   time.Duration(1+r.Intn(4)) * time.Millisecond,
 		HealthCheckPeriod: time.Duration(1+r.Intn(3)) * time.Millisecond,
 	}
-	desc = fmt.Sprintf("race %d goroutines=%d maxconns=%d ops=%d close=%v", id, g, max, nops, withClose)
+	desc = fmt.Sprintf("race %d goroutines=%d maxconns=%d minconns=%d ops=%d close=%v", id, g, max, minc, nops, withClose)
 	p, err := chpool.New(context.Background(), opt)
 	if err != nil {
 		return desc, "FAIL:chpool.New: " + err.Error()
